@@ -40,6 +40,12 @@ func H_C06_consts() {
 	A(CDbl == 2.5, "CDbl")
 	A(CDblInt == 3.0, "CDblInt: an integer literal for a double")
 	A(CDblExp == 1000.0, "CDblExp")
+	A(CDblPi == 3.141592653589793, "a double with 16 significant digits keeps all of them")
+	A(CDblNear == 1.00000000001 && CDblNear != 1, "a double close to 1 stays different from 1")
+	A(CDblTiny == 1e-60 && CDblTiny != 0, "a double below the float32 range")
+	A(CDblBig == 1.5e300, "a double above the float32 range")
+	A(CDblNeg == -0.000125, "negative double")
+	A(len(CDblList) == 2 && CDblList[0] == 0.1 && CDblList[1] == 2.718281828459045, "doubles inside a list constant")
 	A(CTrue == true && CFalse == false, "bool literals")
 	A(COne == true && CZero == false, "1/0 for bool")
 	A(CStr == "plain", "CStr")
@@ -87,6 +93,7 @@ func zzCheckDefaults(p *Defs, what string) {
 	A(p.Ob == true, "ob")
 	A(p.Dd == 2.5, "dd")
 	A(p.Od == 4.0, "od")
+	A(p.Op == 3.141592653589793, "op (default with 16 significant digits)")
 	A(p.De == Color_Green, "de")
 	A(int64(p.Oe) == 5, "oe")
 	A(zzListEq(p.Dl, 1, 2), "dl")
@@ -141,6 +148,7 @@ func H_C06_isset() {
 	zzrt.Assume(od == od)
 	p.Od = od
 	zzrt.Assert(p.IsSetOd() == (p.Od != 4.0), "IsSetOd")
+	zzrt.Assert(!p.IsSetOp() && p.GetOp() == 3.141592653589793, "a field holding exactly its high-precision default is unset and its getter returns the default")
 	// the getter returns the stored value when set and the default otherwise (decided per value)
 	if p.IsSetOi() {
 		zzrt.Assert(p.GetOi() == p.Oi && p.Oi != 6, "getter of a set field")
